@@ -654,3 +654,99 @@ pub fn run_scripted_reads(case: &ScriptedReadCase) -> Result<(), String> {
         loop { let r = framed.read(); if check(k, r)? { return Ok(()); } k += 1; }
     }
 }
+
+// ---------------------------------------------------------------------------------------------
+// Blocking connection, one keep-alive, a write side that FAILS in the middle of the reply: it accepts k bytes (k = 0..=3),
+// answers one error of a given kind, then accepts everything.  Whatever the connection's retry policy, the wire never
+// carries anything but a prefix of ONE reply, and the keep-alive is handed over only with that reply whole.
+
+#[derive(Debug)]
+struct FailingWrites { inbound: Vec<u8>, rpos: usize, accept: usize, kind: io::ErrorKind, state: u8, out: std::sync::Arc<std::sync::Mutex<Vec<u8>>> }
+impl io::Read for FailingWrites {
+    fn read(&mut self, b: &mut [u8]) -> io::Result<usize> { let n = b.len().min(self.inbound.len() - self.rpos); b[..n].copy_from_slice(&self.inbound[self.rpos..self.rpos + n]); self.rpos += n; Ok(n) }
+}
+impl io::Write for FailingWrites {
+    fn write(&mut self, buf: &[u8]) -> io::Result<usize> {
+        match self.state {
+            0 if self.accept > 0 => { self.state = 1; let n = self.accept.min(buf.len()); self.out.lock().unwrap().extend_from_slice(&buf[..n]); Ok(n) },
+            0 | 1 => { self.state = 2; Err(io::Error::new(self.kind, "verif: write fault")) },
+            _ => { self.out.lock().unwrap().extend_from_slice(buf); Ok(buf.len()) },
+        }
+    }
+    fn flush(&mut self) -> io::Result<()> { Ok(()) }
+}
+
+pub struct ReplyFaultCase { pub compressed: bool, pub accept: usize, pub kind: io::ErrorKind }
+impl ReplyFaultCase { pub fn label(&self) -> String { format!("reply-write-fault#blocking#{}#{}-bytes-accepted-then-{:?}", if self.compressed { "compressed" } else { "uncompressed" }, self.accept, self.kind) } }
+pub fn reply_fault_cases() -> Vec<ReplyFaultCase> {
+    let mut v = vec![];
+    for compressed in [true, false] { for accept in 0..=3usize { for kind in [io::ErrorKind::WouldBlock, io::ErrorKind::TimedOut, io::ErrorKind::Interrupted, io::ErrorKind::Other, io::ErrorKind::BrokenPipe, io::ErrorKind::WriteZero] { v.push(ReplyFaultCase { compressed, accept, kind }); } } }
+    v
+}
+pub fn run_reply_fault(case: &ReplyFaultCase) -> Result<(), String> {
+    let pong: Vec<u8> = vec![if case.compressed { 1 } else { 4 }, 3, 0, 0];
+    let small: Vec<u8> = if case.compressed { vec![2, 4, 1, 0, 0, 0, 0, 0] } else { vec![8, 4, 1, 0, 0, 0, 0, 0] };
+    let mut inbound = pong.clone();
+    inbound.extend_from_slice(&small);
+    let out = std::sync::Arc::new(std::sync::Mutex::new(Vec::<u8>::new()));
+    let t = FailingWrites { inbound, rpos: 0, accept: case.accept, kind: case.kind, state: 0, out: out.clone() };
+    let mut framed = insim::net::blocking_impl::Framed::new(Box::new(t), Codec::new(mode_of(case.compressed)));
+    let first = framed.read();
+    let written = out.lock().unwrap().clone();
+    let whole = written == pong;
+    let prefix = written.len() <= 4 && pong[..written.len()] == written[..];
+    match &first {
+        Ok(Packet::Tiny(t)) if t.reqi.0 == 0 && t.subt == TinyType::None => {
+            if !whole { return Err(format!("the keep-alive was handed over with {} on the wire where exactly one reply {} is due", crate::report::hex(&written), crate::report::hex(&pong))); }
+        },
+        Ok(p) => return Err(format!("the first read returned {} where the keep-alive (or an error) is due", format!("{p:?}").chars().take(60).collect::<String>())),
+        Err(_) => { if !prefix { return Err(format!("the read failed with {} on the wire, which is not the beginning of one reply", crate::report::hex(&written))); } },
+    }
+    Ok(())
+}
+
+// ---------------------------------------------------------------------------------------------
+// The write side of the 2^32-byte session (thorough tier): one connection writes more than 4 GiB of maximum-size
+// frames; the transport checks every byte it is offered against the frame sequence (library built with overflow checks).
+
+#[derive(Debug)]
+struct CheckingSink { frame: Vec<u8>, pos: u64, bad: Option<u64> }
+impl CheckingSink {
+    fn offer(&mut self, buf: &[u8]) {
+        let l = self.frame.len() as u64;
+        for (k, b) in buf.iter().enumerate() { if self.bad.is_none() && *b != self.frame[((self.pos + k as u64) % l) as usize] { self.bad = Some(self.pos + k as u64); } }
+        self.pos += buf.len() as u64;
+    }
+}
+#[derive(Debug)]
+struct SharedSink(std::sync::Arc<std::sync::Mutex<CheckingSink>>);
+impl io::Read for SharedSink { fn read(&mut self, _b: &mut [u8]) -> io::Result<usize> { Ok(0) } }
+impl io::Write for SharedSink { fn write(&mut self, b: &[u8]) -> io::Result<usize> { self.0.lock().unwrap().offer(b); Ok(b.len()) } fn flush(&mut self) -> io::Result<()> { Ok(()) } }
+impl AsyncRead for SharedSink { fn poll_read(self: Pin<&mut Self>, _cx: &mut Context<'_>, _b: &mut ReadBuf<'_>) -> Poll<io::Result<()>> { Poll::Ready(Ok(())) } }
+impl AsyncWrite for SharedSink {
+    fn poll_write(self: Pin<&mut Self>, _cx: &mut Context<'_>, b: &[u8]) -> Poll<io::Result<usize>> { self.0.lock().unwrap().offer(b); Poll::Ready(Ok(b.len())) }
+    fn poll_flush(self: Pin<&mut Self>, _cx: &mut Context<'_>) -> Poll<io::Result<()>> { Poll::Ready(Ok(())) }
+    fn poll_shutdown(self: Pin<&mut Self>, _cx: &mut Context<'_>) -> Poll<io::Result<()>> { Poll::Ready(Ok(())) }
+}
+
+pub fn run_long_writes(tokio: bool, compressed: bool) -> Result<u64, String> {
+    let codec = Codec::new(mode_of(compressed));
+    let p = cycle(compressed)[0].clone();
+    let frame = codec.encode(&p).map_err(|e| format!("MACHINERY encode {e:?}"))?.to_vec();
+    let n = (1u64 << 32) / frame.len() as u64 + 1100;
+    let sink = std::sync::Arc::new(std::sync::Mutex::new(CheckingSink { frame: frame.clone(), pos: 0, bad: None }));
+    let t = SharedSink(sink.clone());
+    let r: Result<(), String> = if tokio {
+        let rt = tokio::runtime::Builder::new_current_thread().enable_time().start_paused(true).build().map_err(|e| format!("MACHINERY {e}"))?;
+        let mut framed = insim::net::tokio_impl::Framed::new(Box::new(t), Codec::new(mode_of(compressed)));
+        rt.block_on(async { for k in 0..n { framed.write(p.clone()).await.map_err(|e| format!("write #{k} failed: {e}"))?; } Ok(()) })
+    } else {
+        let mut framed = insim::net::blocking_impl::Framed::new(Box::new(t), Codec::new(mode_of(compressed)));
+        (|| { for k in 0..n { framed.write(p.clone()).map_err(|e| format!("write #{k} failed: {e}"))?; } Ok(()) })()
+    };
+    r?;
+    let s = sink.lock().unwrap();
+    if let Some(at) = s.bad { return Err(format!("byte {at} of the outbound stream is not the byte of the frame sequence")); }
+    if s.pos != n * frame.len() as u64 { return Err(format!("{} bytes reached the transport where {} writes of {} bytes returned", s.pos, n, frame.len())); }
+    Ok(n)
+}
